@@ -48,6 +48,10 @@ var contexts = []struct {
 	{"loop-return", true, false},
 	{"method-return", true, false},
 	{"paren-return", true, false},
+	// instructions removed by the optimiser earlier in the function (the offsets of everything after them shift)
+	{"dead-code-return-or", true, false},
+	{"dead-code-return-and", true, false},
+	{"dead-code-return-call", true, false},
 	{"ternary-true", false, true},
 	{"ternary-false", false, true},
 	{"return-plus0", false, false},
@@ -132,6 +136,23 @@ func build(c Case) *gen.Program {
 		body = append(body, baseRet, &gen.Return{X: call})
 	case "paren-return":
 		body = append(body, baseRet, &gen.Return{X: &gen.Paren{X: call}})
+	case "dead-code-return-or", "dead-code-return-and", "dead-code-return-call":
+		// the short-circuit forms end the recursion through their left operand (truthy / falsy at n == 0), so the
+		// guarded return with the removed statements is never taken there
+		cond := gen.Expr(isZero)
+		if c.Context != "dead-code-return-call" {
+			cond = B("<", I("n"), N("0"))
+		}
+		dead := &gen.If{Cond: cond, Then: []gen.Stmt{&gen.Return{X: base}, gen.Def("dead", N("1")), gen.Set(I("dead"), B("+", I("dead"), N("2")))},
+			Else: []gen.Stmt{gen.Def("live", N("0"))}}
+		var ret gen.Expr = call
+		switch c.Context {
+		case "dead-code-return-or":
+			ret = B("||", B("==", I("n"), N("0")), call)
+		case "dead-code-return-and":
+			ret = B("&&", B(">", I("n"), N("0")), call)
+		}
+		body = append(body, dead, &gen.Return{X: ret})
 	case "return-and":
 		body = append(body, baseRet, &gen.Return{X: B("&&", B(">", I("n"), N("0")), call)})
 	case "return-or":
